@@ -186,7 +186,10 @@ def enrich(prog, rng, max_in=3, max_inputs=10, max_choices=4, dstcap=3):
     errs = [s for s in statuses if s.startswith('"#')] + ["base." + s for s in BASE_STATUSES if s.startswith('"#')]
     susps = [s for s in statuses if s.startswith('"$')] + ["base." + s for s in BASE_STATUSES if s.startswith('"$')]
     notes = [s for s in statuses if s.startswith('"@')] + ["base." + s for s in BASE_STATUSES if s.startswith('"@')]
-    out = {"pkg": prog.pkg, "nodes": N, "fields": fields, "funcs": funcs, "inputs": inputs, "dstcap": dstcap,
+    for f in funcs:
+        f["ltype"] = {l["n"]: l["ty"] for l in f["locals"]}
+    out = {"pkg": prog.pkg, "nodes": N, "fields": fields, "funcs": funcs, "fmap": {f["name"]: f for f in funcs},
+           "ftype": {f["n"]: f["ty"] for f in fields}, "inputs": inputs, "dstcap": dstcap,
            "errs": errs, "susps": susps, "notes": notes, "structname": st["c"]}
     return out, None
 
